@@ -77,7 +77,7 @@ T = {
 
 FAULT = {"C24"}
 # checks that are quiet on the current tree (registered); the others stay under not_applicable until they are
-READY = [f"C{i:02d}" for i in range(1, 31) if i != 9]
+READY = [f"C{i:02d}" for i in range(1, 31)]
 
 CHECKS = {}
 for pid in READY:
